@@ -138,15 +138,15 @@ Lemma decrypt_sealed A B k hdr d :
        (fin_dg (fin_recv_aad B) (send_dg B)) (fin_dg (fin_recv_aad B) (recv_dg B)), SOk d).
 Proof.
   intros [Hk He Hc Hiv Hivl Hf Hsd Hrd] EkA.
-  assert (Hw : forall div, div = enc_iv A ->
-     decrypt_with B k hdr div (seal k (nonce_of (enc_iv A) (enc_ctr A)) (aad_send A hdr) d) =
+  assert (Hw : forall div blen, div = enc_iv A ->
+     decrypt_with B k hdr div (seal k (nonce_of (enc_iv A) (enc_ctr A)) (aad_send A hdr) d) blen =
      (upd_recv B (enc_iv A) (enc_ctr A + 1) true
        (fin_dg (fin_recv_aad B) (send_dg B)) (fin_dg (fin_recv_aad B) (recv_dg B)), SOk d)).
-  { intros div ->. unfold decrypt_with. rewrite <- Hc.
+  { intros div blen ->. unfold decrypt_with. rewrite <- Hc.
     assert (Ha : aad_recv B hdr = aad_send A hdr).
     { unfold aad_recv, aad_send. rewrite <- Hf, (dsim_value _ _ Hsd), (dsim_value _ _ Hrd). reflexivity. }
     rewrite Ha, open_seal. reflexivity. }
-  unfold decrypt. rewrite <- Hc.
+  unfold decrypt. cbv zeta. rewrite <- Hc.
   destruct (enc_ctr A =? 0) eqn:E0.
   - rewrite Hivl. change (16 =? 16) with true. cbv iota. apply Hw. reflexivity.
   - apply Hw. symmetry. apply Hiv. apply N.eqb_neq in E0. lia.
